@@ -424,6 +424,10 @@ type nameTrack struct {
 }
 
 func reloadCase(c *h.Case) {
+	if (c.Idx-baseReload)%20 == 0 {
+		staleReplyCase(c)
+		return
+	}
 	rng := c.Rng
 	slot, blk, ok := reloadSlots.get()
 	defer reloadSlots.put(slot)
@@ -1067,4 +1071,92 @@ func listedNames(m map[string]string) map[string]bool {
 		o[k] = true
 	}
 	return o
+}
+
+// staleReplyCase: a real frps whose registration replies are late (the NewProxy plugin operation takes
+// 600 ms). The entry is changed while the reply to its first registration is outstanding, and the port
+// of the new version is taken at that moment, so frps answers: success (old request), error (new
+// request). The error has to be retried after the back-off interval; the port is free by then.
+func staleReplyCase(c *h.Case) {
+	slot, blk, ok := reloadSlots.get()
+	defer reloadSlots.put(slot)
+	if !ok {
+		run.Inconclusive("reload: port block still busy")
+		return
+	}
+	pfx := fmt.Sprintf("c%d.", c.Idx)
+	name := pfx + "p0"
+	defer forgetRegs(pfx)
+	defer forgetPhases(pfx)
+	c.Data["kind"] = "changed-while-reply-outstanding (real frps, late replies)"
+	b, err := h.StartTCPBackend(0, h.IdentEcho("B0"))
+	if err != nil {
+		run.Inconclusive("reload: backend did not start")
+		return
+	}
+	defer b.Close()
+	squat, err := net.Listen("tcp", "127.0.0.1:"+strconv.Itoa(blk[1]))
+	if err != nil {
+		run.Inconclusive("reload: cannot take the port")
+		return
+	}
+	defer squat.Close()
+	pluginDelay(pfx, 600*time.Millisecond)
+	defer pluginDelay(pfx, 0)
+	cfg := func(remote int) string {
+		return fmt.Sprintf(`serverAddr = "127.0.0.1"
+serverPort = %d
+auth.token = "%s"
+loginFailExit = false
+transport.tls.enable = false
+
+[[proxies]]
+name = %q
+type = "tcp"
+localIP = "127.0.0.1"
+localPort = %d
+remotePort = %d
+`, srv.Cfg.BindPort, token, name, b.Port, remote)
+	}
+	cli, err := h.StartClientText(prop, cfg(blk[0]))
+	if err != nil {
+		run.Inconclusive("reload: client did not start")
+		return
+	}
+	defer cli.Close()
+	if !h.Eventually(10*time.Second, func() bool { at, _ := regCounts(name); return at >= 1 }) {
+		run.Inconclusive("reload: first registration not seen")
+		return
+	}
+	_, pcs, vcs, err := h.LoadClientConfig(prop, cfg(blk[1]))
+	if err != nil {
+		run.Inconclusive("reload: configuration does not load")
+		return
+	}
+	if err := cli.Svc.UpdateAllConfigurer(pcs, vcs); err != nil {
+		c.Violation("reload-refused", "UpdateAllConfigurer returned %v", err)
+		return
+	}
+	c.Ev("reload", "remotePort", blk[1], "while", "reply to the first NewProxy outstanding")
+	if !h.Eventually(10*time.Second, func() bool { at, _ := regCounts(name); return at >= 2 }) {
+		c.Violation("changed-entry-not-restarted", "%s changed (remotePort) while waiting for its reply: no second NewProxy reached the server", name)
+		return
+	}
+	time.Sleep(1500 * time.Millisecond) // both replies are out by now
+	c.Ev("state", "client_status", cli.ProxyPhase(name), "server", setKeys(liveNames(name)))
+	squat.Close()
+	if !h.Eventually(3*tStartErr+10*time.Second, func() bool { return liveNames(name)[name] }) {
+		st, _ := cli.Svc.StatusExporter().GetProxyStatus(name)
+		c.Data["server_events"] = regEvents(name)
+		c.Data["phases"] = phaseHistory(name)
+		c.Violation("start-error-after-stale-reply-abandoned", "real frps, replies 600 ms late: %s was changed (remotePort %d -> %d) while the reply to its first registration was outstanding and port %d was taken at that moment. frps answered success (old request) then an error (new request). %v after the port became free the proxy is still not registered (server: %v) and the client reports status %q err %q: the old reply was taken for the new request and the start error was dropped instead of retried",
+			name, blk[0], blk[1], blk[1], 3*tStartErr+10*time.Second, setKeys(liveNames(pfx)), st.Phase, st.Err)
+		return
+	}
+	if id, err := h.AskIdent(fmt.Sprintf("127.0.0.1:%d", blk[1]), 10*time.Second); err != nil || id != "B0|" {
+		c.Violation("registered-proxy-carries-no-traffic-to-configured-backend", "%s on port %d answered %q / %v", name, blk[1], id, err)
+		return
+	}
+	run.Count("stale_reply_real_server_cases", 1)
+	run.Distinct("reload|stale-reply-real-server")
 }
